@@ -76,7 +76,12 @@ pub struct Trace {
     pub error: Option<String>,
 }
 
-pub fn run_sched(st: &Setup, sched: &Sched, r: &mut Rng, limit: usize) -> Trace {
+pub fn run_sched(st: &Setup, sched: &Sched, r: &mut Rng, limit: usize) -> Trace { run_sched_late(st, sched, r, limit, &[]) }
+
+/// `late`: input bytes the harness thread types while the program runs: (boundary index, byte), in
+/// order; they are appended to the keyboard buffer just before that boundary's step (with the lock
+/// taken and released again, like a front end would)
+pub fn run_sched_late(st: &Setup, sched: &Sched, r: &mut Rng, limit: usize, late: &[(usize, u8)]) -> Trace {
     let run = Runner::new(st);
     let input: Vec<u8> = st.kb.as_ref().map(|x| x.0.clone()).unwrap_or_default();
     let mut t = Trace { run, received: vec![], expected_out: vec![], in_class: false, class_what: String::new(), pred_received: vec![],
@@ -87,6 +92,7 @@ pub fn run_sched(st: &Setup, sched: &Sched, r: &mut Rng, limit: usize) -> Trace 
     let mut pending_in: Option<u16> = None; // user-level GETC/IN in flight: return address
     let mut pending_in_is_in = false;
     for n in 0..limit {
+        for (at, b) in late { if *at == n { if let Some(q) = &t.run.m.kb { q.write().unwrap().push_back(*b); } t.pred_queue.push(*b); } }
         let m = &t.run.m;
         let pc = m.sim.pc;
         let w = m.sim.mem[pc].get();
@@ -159,11 +165,15 @@ pub fn run_sched(st: &Setup, sched: &Sched, r: &mut Rng, limit: usize) -> Trace 
 struct Tally { runs: AtomicU64, steps: AtomicU64, in_class: AtomicU64, outside: AtomicU64, known_reported: AtomicU64 }
 
 /// Judge one finished trace; records the `sim.run` case and the failures.
-fn judge(ctx: &Ctx, shard: usize, tally: &Tally, p: Prog, input: &[u8], ds0: &[u8], t: &Trace, label: &str) {
+fn judge(ctx: &Ctx, shard: usize, tally: &Tally, p: Prog, input: &[u8], ds0: &[u8], t: &Trace, label: &str) { judge_opt(ctx, shard, tally, p, input, ds0, t, label, true) }
+/// `record = false` for runs with input typed during the run (the `sim.run` wire format has no such event)
+fn judge_opt(ctx: &Ctx, shard: usize, tally: &Tally, p: Prog, input: &[u8], ds0: &[u8], t: &Trace, label: &str, record: bool) {
     tally.runs.fetch_add(1, Relaxed);
     tally.steps.fetch_add(t.run.steps() as u64, Relaxed);
-    let (inp, out) = t.run.case();
-    ctx.case_to(shard, "sim.run", &inp, &out);
+    if record {
+        let (inp, out) = t.run.case();
+        ctx.case_to(shard, "sim.run", &inp, &out);
+    }
     let what = |s: String| format!("{} input {:?} schedule {label}: {s}", p.name(), input);
     let display = ds_buf(&t.run.m);
     let queue = kb_queue(&t.run.m);
@@ -298,6 +308,43 @@ pub fn run(ctx: &Ctx, _replay: Option<&str>) {
                 }
             }
         }
+    });
+    // ---- input typed while the program runs: the first byte is queued, the second arrives at boundary `at`
+    // (while the second GETC / IN is already polling, or earlier); every single locked boundary, 3 kinds
+    let late_jobs: Vec<(Prog, usize)> = Prog::ALL.iter().flat_map(|p| [8usize, 30, 45, 70].into_iter().map(move |at| (*p, at))).filter(|(p, _)| *p != Prog::InOnly || !q).collect();
+    par_for(late_jobs.len(), |u| {
+        let (p, at) = late_jobs[u];
+        let input = [0x61u8, 0x62];
+        let mut st = setup_for(p, &input, &[], u % 2 == 0, false);
+        st.kb = Some((vec![input[0]], false));
+        let late = [(at, input[1])];
+        let free = run_sched_late(&st, &Sched::Fixed(&[]), &mut Rng::new(0), 4000, &late);
+        judge_opt(ctx, u, &tally, p, &input, &[], &free, &format!("second byte typed at boundary {at}, all free"), false);
+        for a in 0..free.run.steps() + 6 {
+            for ka in [(true, false), (false, true), (true, true)] {
+                let mut v = vec![(false, false); a + 1];
+                v[a] = ka;
+                let t = run_sched_late(&st, &Sched::Fixed(&v), &mut Rng::new(0), 4000, &late);
+                judge_opt(ctx, u, &tally, p, &input, &[], &t, &format!("second byte typed at boundary {at}, boundary {a}:{ka:?}"), false);
+            }
+        }
+        ctx.stat("late_input_jobs", 1);
+    });
+    // random locks with random typing times on longer inputs
+    par_for(ctx.n(120, 3000) as usize, |k| {
+        let mut r = root.fork(0x4C000 + k as u64);
+        let p = Prog::ALL[k % 4];
+        let n = 2 + r.below(if p == Prog::InOnly { 2 } else { 5 }) as usize;
+        let input: Vec<u8> = (0..n).map(|_| 1 + r.below(255) as u8).collect();
+        let first = r.below(n as u64) as usize;
+        let mut st = setup_for(p, &input, &[], r.chance(1, 2), false);
+        st.kb = Some((input[..first].to_vec(), false));
+        let mut at = 0usize;
+        let late: Vec<(usize, u8)> = input[first..].iter().map(|b| { at += r.below(90) as usize; (at, *b) }).collect();
+        let (num, den) = [(1u64, 16u64), (1, 6), (1, 3), (2, 3)][r.below(4) as usize];
+        let budget = 4 + r.below(60) as usize;
+        let t = run_sched_late(&st, &Sched::Random { num, den, budget, avoid_data: true }, &mut r, 12000, &late);
+        judge_opt(ctx, k, &tally, p, &input, &[], &t, &format!("typed during the run {late:?}, random p={num}/{den} budget={budget} avoid_data=true"), false);
     });
     // ---- random part: longer inputs
     let nrand = ctx.n(160, 4000) as usize;
